@@ -316,11 +316,16 @@ package lint
 
 //@ spec wfcertLookup(lk *certificateLinterLookupImpl) bool =
 //@      lk != nil && lk.lintsByName != nil && lk.lintsBySource != nil && lk.sources != nil &&
+//@      allocated(lk.lintsByName) && allocated(lk.lintsBySource) && allocated(lk.sources) && allocated(lk.lints) && allocated(lk.lintNames) &&
 //@      len(lk.lintNames) == len(lk.lints) &&
-//@      forall(i, 0, len(lk.lints), lk.lints[i] != nil && allocated(lk.lints[i]) && lk.lints[i].Lint != nil &&
+//@      forall(i, 0, len(lk.lints), lk.lints[i] != nil && allocated(lk.lints[i]) && lk.lints[i].Lint != nil && lk.lints[i].Name != "" &&
 //@             indom(lk.lintsByName, lk.lints[i].Name) && lk.lintsByName[lk.lints[i].Name] == lk.lints[i]) &&
 //@      forall(i, 0, len(lk.lints), forall(j, 0, len(lk.lints), implies(i != j, lk.lints[i].Name != lk.lints[j].Name))) &&
-//@      all(n, string, implies(indom(lk.lintsByName, n), exists(i, 0, len(lk.lints), lk.lints[i].Name == n)))
+//@      all(n, string, implies(indom(lk.lintsByName, n), exists(i, 0, len(lk.lints), lk.lints[i].Name == n))) &&
+//@      all(s, LintSource, implies(indom(lk.lintsBySource, s), allocated(lk.lintsBySource[s]) && baseof(lk.lintsBySource[s]) != baseof(lk.lints))) &&
+//@      forall(i, 0, len(lk.lintNames), indom(lk.lintsByName, lk.lintNames[i])) &&
+//@      all(n, string, implies(indom(lk.lintsByName, n), exists(i, 0, len(lk.lintNames), lk.lintNames[i] == n))) &&
+//@      forall(i, 0, len(lk.lintNames), forall(j, 0, len(lk.lintNames), implies(i != j, lk.lintNames[i] != lk.lintNames[j])))
 
 //@ func (*certificateLinterLookupImpl).ByName [C08 C12 C13 C10]
 //@   requires lookup != nil
@@ -342,11 +347,16 @@ package lint
 
 //@ spec wfcrlLookup(lk *revocationListLinterLookupImpl) bool =
 //@      lk != nil && lk.lintsByName != nil && lk.lintsBySource != nil && lk.sources != nil &&
+//@      allocated(lk.lintsByName) && allocated(lk.lintsBySource) && allocated(lk.sources) && allocated(lk.lints) && allocated(lk.lintNames) &&
 //@      len(lk.lintNames) == len(lk.lints) &&
-//@      forall(i, 0, len(lk.lints), lk.lints[i] != nil && allocated(lk.lints[i]) && lk.lints[i].Lint != nil &&
+//@      forall(i, 0, len(lk.lints), lk.lints[i] != nil && allocated(lk.lints[i]) && lk.lints[i].Lint != nil && lk.lints[i].Name != "" &&
 //@             indom(lk.lintsByName, lk.lints[i].Name) && lk.lintsByName[lk.lints[i].Name] == lk.lints[i]) &&
 //@      forall(i, 0, len(lk.lints), forall(j, 0, len(lk.lints), implies(i != j, lk.lints[i].Name != lk.lints[j].Name))) &&
-//@      all(n, string, implies(indom(lk.lintsByName, n), exists(i, 0, len(lk.lints), lk.lints[i].Name == n)))
+//@      all(n, string, implies(indom(lk.lintsByName, n), exists(i, 0, len(lk.lints), lk.lints[i].Name == n))) &&
+//@      all(s, LintSource, implies(indom(lk.lintsBySource, s), allocated(lk.lintsBySource[s]) && baseof(lk.lintsBySource[s]) != baseof(lk.lints))) &&
+//@      forall(i, 0, len(lk.lintNames), indom(lk.lintsByName, lk.lintNames[i])) &&
+//@      all(n, string, implies(indom(lk.lintsByName, n), exists(i, 0, len(lk.lintNames), lk.lintNames[i] == n))) &&
+//@      forall(i, 0, len(lk.lintNames), forall(j, 0, len(lk.lintNames), implies(i != j, lk.lintNames[i] != lk.lintNames[j])))
 
 //@ func (*revocationListLinterLookupImpl).ByName [C08 C12 C13 C10]
 //@   requires lookup != nil
@@ -368,11 +378,16 @@ package lint
 
 //@ spec wfocspLookup(lk *ocspResponseLinterLookupImpl) bool =
 //@      lk != nil && lk.lintsByName != nil && lk.lintsBySource != nil && lk.sources != nil &&
+//@      allocated(lk.lintsByName) && allocated(lk.lintsBySource) && allocated(lk.sources) && allocated(lk.lints) && allocated(lk.lintNames) &&
 //@      len(lk.lintNames) == len(lk.lints) &&
-//@      forall(i, 0, len(lk.lints), lk.lints[i] != nil && allocated(lk.lints[i]) && lk.lints[i].Lint != nil &&
+//@      forall(i, 0, len(lk.lints), lk.lints[i] != nil && allocated(lk.lints[i]) && lk.lints[i].Lint != nil && lk.lints[i].Name != "" &&
 //@             indom(lk.lintsByName, lk.lints[i].Name) && lk.lintsByName[lk.lints[i].Name] == lk.lints[i]) &&
 //@      forall(i, 0, len(lk.lints), forall(j, 0, len(lk.lints), implies(i != j, lk.lints[i].Name != lk.lints[j].Name))) &&
-//@      all(n, string, implies(indom(lk.lintsByName, n), exists(i, 0, len(lk.lints), lk.lints[i].Name == n)))
+//@      all(n, string, implies(indom(lk.lintsByName, n), exists(i, 0, len(lk.lints), lk.lints[i].Name == n))) &&
+//@      all(s, LintSource, implies(indom(lk.lintsBySource, s), allocated(lk.lintsBySource[s]) && baseof(lk.lintsBySource[s]) != baseof(lk.lints))) &&
+//@      forall(i, 0, len(lk.lintNames), indom(lk.lintsByName, lk.lintNames[i])) &&
+//@      all(n, string, implies(indom(lk.lintsByName, n), exists(i, 0, len(lk.lintNames), lk.lintNames[i] == n))) &&
+//@      forall(i, 0, len(lk.lintNames), forall(j, 0, len(lk.lintNames), implies(i != j, lk.lintNames[i] != lk.lintNames[j])))
 
 //@ func (*ocspResponseLinterLookupImpl).ByName [C08 C12 C13 C10]
 //@   requires lookup != nil
@@ -405,12 +420,34 @@ package lint
 
 // registry-level accessors: read-only (C10: concurrent readers never write shared memory)
 
+// wfRegistry(r): the three lookup tables satisfy their representation invariant; xdistinct(r): no
+// name is registered for two kinds (the run-time check is per kind; the registration census of C12
+// establishes it for the global registry, Filter preserves it)
+//@ spec wfRegistry(r *registryImpl) bool =
+//@      r != nil && wfcertLookup(&r.certificateLints) && wfocspLookup(&r.ocspResponseLints) && wfcrlLookup(&r.revocationListLints) &&
+//@      baseof(r.certificateLints.lintNames) != baseof(r.ocspResponseLints.lintNames) &&
+//@      baseof(r.certificateLints.lintNames) != baseof(r.revocationListLints.lintNames) &&
+//@      baseof(r.ocspResponseLints.lintNames) != baseof(r.revocationListLints.lintNames)
+//@ spec xdistinct(r *registryImpl) bool =
+//@      all(n, string, !(indom(r.certificateLints.lintsByName, n) && indom(r.ocspResponseLints.lintsByName, n)) &&
+//@                     !(indom(r.certificateLints.lintsByName, n) && indom(r.revocationListLints.lintsByName, n)) &&
+//@                     !(indom(r.ocspResponseLints.lintsByName, n) && indom(r.revocationListLints.lintsByName, n)))
+//@ spec inAny0(r *registryImpl, n string) bool = old(inAny(r, n))
+//@ spec inAny(r *registryImpl, n string) bool =
+//@      indom(r.certificateLints.lintsByName, n) || indom(r.ocspResponseLints.lintsByName, n) || indom(r.revocationListLints.lintsByName, n)
+
 //@ func (*registryImpl).Names [C08 C12 C10]
-//@   requires r != nil
+//@   requires wfRegistry(r)
 //@   nopanic
 //@   assigns \fresh
+//@   atcall [C08] sort.Strings 1 forall(i, 0, len(names), inAny(r, names[i]))
+//@   atcall [C08] sort.Strings 1 all(n, string, implies(inAny(r, n), exists(i, 0, len(names), names[i] == n)))
+//@   atcall [C08] sort.Strings 1 implies(xdistinct(r), forall(i, 0, len(names), forall(j, 0, len(names), implies(i != j, names[i] != names[j]))))
 //@   ensures fresh(result) || result == nil
 //@   ensures len(result) == len(r.certificateLints.lintNames) + len(r.ocspResponseLints.lintNames) + len(r.revocationListLints.lintNames)
+//@   ensures [C08] forall(i, 0, len(result), inAny(r, result[i]))
+//@   ensures [C08] all(n, string, implies(inAny(r, n), exists(i, 0, len(result), result[i] == n)))
+//@   ensures [C08] implies(xdistinct(r), forall(i, 0, len(result), forall(j, 0, len(result), implies(i != j, result[i] != result[j]))))
 
 //@ func (*registryImpl).Sources [C08 C10]
 //@   requires r != nil
@@ -478,11 +515,13 @@ package lint
 //@   loop 1 invariant namesMap != nil && fresh(namesMap) && k <= len(names)
 //@   loop 1 invariant forall(j, 0, k, known(r, trim(names[j])) && indom(namesMap, trim(names[j])) && namesMap[trim(names[j])])
 //@   loop 1 invariant all(n, string, implies(indom(namesMap, n), namesMap[n] && exists(j, 0, k, trim(names[j]) == n)))
+//@   loop 1 invariant implies(k > 0, len(namesMap) > 0)
 //@   ensures implies(len(names) == 0, result0 == nil && result1 == nil)
 //@   ensures (result1 == nil) == forall(j, 0, len(names), known(r, trim(names[j])))
 //@   ensures implies(result1 == nil && len(names) != 0, result0 != nil && fresh(result0) &&
 //@                   all(n, string, (indom(result0, n) && result0[n]) == exists(j, 0, len(names), trim(names[j]) == n)))
 //@   ensures implies(result1 != nil, result0 == nil)
+//@   ensures implies(result1 == nil, (len(result0) != 0) == (len(names) != 0))
 
 //@ func sourceListToMap [C08]
 //@   nopanic
@@ -526,3 +565,234 @@ package lint
 //@   trusted
 //@   pure
 //@   ensures cfgOK(result)
+
+// ---------------------------------------------------------------------------
+// registration into a lookup table (C08 C12): the representation invariant is preserved and the
+// table is extended by exactly this lint; a refused registration changes nothing.
+
+//@ func (*certificateLinterLookupImpl).register [C08 C12]
+//@   requires wfcertLookup(lookup) && lint != nil && allocated(lint) && lint.Lint != nil && lint.Name == name
+//@   nopanic
+//@   assigns \fresh, lookup.lints, lookup.lintNames, \mapof(lookup.lintsByName), \mapof(lookup.sources), \mapof(lookup.lintsBySource), \elems(lookup.lintNames)
+//@   atcall sort.Strings 1 forall(i, 0, len(lookup.lintNames), lookup.lintNames[i] == name || old(indom(lookup.lintsByName, lookup.lintNames[i])))
+//@   atcall sort.Strings 1 all(n, string, implies(old(indom(lookup.lintsByName, n)), exists(i, 0, len(lookup.lintNames), lookup.lintNames[i] == n)))
+//@   atcall sort.Strings 1 exists(i, 0, len(lookup.lintNames), lookup.lintNames[i] == name)
+//@   atcall sort.Strings 1 forall(i, 0, len(lookup.lintNames), forall(j, 0, len(lookup.lintNames), implies(i != j, lookup.lintNames[i] != lookup.lintNames[j])))
+//@   ensures (result != nil) == (name == "" || old(indom(lookup.lintsByName, name)))
+//@   ensures implies(result != nil, lookup.lints == old(lookup.lints) && lookup.lintNames == old(lookup.lintNames) &&
+//@                   all(n, string, indom(lookup.lintsByName, n) == old(indom(lookup.lintsByName, n)) &&
+//@                                  lookup.lintsByName[n] == old(lookup.lintsByName[n])))
+//@   ensures (baseof(lookup.lintNames) == old(baseof(lookup.lintNames)) || fresh(lookup.lintNames)) && (baseof(lookup.lints) == old(baseof(lookup.lints)) || fresh(lookup.lints))
+//@   ensures implies(result == nil, wfcertLookup(lookup))
+//@   ensures implies(result == nil, len(lookup.lints) == old(len(lookup.lints)) + 1 && lookup.lintsByName[name] == lint)
+//@   ensures implies(result == nil, all(n, string, indom(lookup.lintsByName, n) == (old(indom(lookup.lintsByName, n)) || n == name)))
+//@   ensures implies(result == nil, all(n, string, implies(n != name, lookup.lintsByName[n] == old(lookup.lintsByName[n]))))
+
+//@ func (*revocationListLinterLookupImpl).register [C08 C12]
+//@   requires wfcrlLookup(lookup) && lint != nil && allocated(lint) && lint.Lint != nil && lint.Name == name
+//@   nopanic
+//@   assigns \fresh, lookup.lints, lookup.lintNames, \mapof(lookup.lintsByName), \mapof(lookup.sources), \mapof(lookup.lintsBySource), \elems(lookup.lintNames)
+//@   atcall sort.Strings 1 forall(i, 0, len(lookup.lintNames), lookup.lintNames[i] == name || old(indom(lookup.lintsByName, lookup.lintNames[i])))
+//@   atcall sort.Strings 1 all(n, string, implies(old(indom(lookup.lintsByName, n)), exists(i, 0, len(lookup.lintNames), lookup.lintNames[i] == n)))
+//@   atcall sort.Strings 1 exists(i, 0, len(lookup.lintNames), lookup.lintNames[i] == name)
+//@   atcall sort.Strings 1 forall(i, 0, len(lookup.lintNames), forall(j, 0, len(lookup.lintNames), implies(i != j, lookup.lintNames[i] != lookup.lintNames[j])))
+//@   ensures (result != nil) == (name == "" || old(indom(lookup.lintsByName, name)))
+//@   ensures implies(result != nil, lookup.lints == old(lookup.lints) && lookup.lintNames == old(lookup.lintNames) &&
+//@                   all(n, string, indom(lookup.lintsByName, n) == old(indom(lookup.lintsByName, n)) &&
+//@                                  lookup.lintsByName[n] == old(lookup.lintsByName[n])))
+//@   ensures (baseof(lookup.lintNames) == old(baseof(lookup.lintNames)) || fresh(lookup.lintNames)) && (baseof(lookup.lints) == old(baseof(lookup.lints)) || fresh(lookup.lints))
+//@   ensures implies(result == nil, wfcrlLookup(lookup))
+//@   ensures implies(result == nil, len(lookup.lints) == old(len(lookup.lints)) + 1 && lookup.lintsByName[name] == lint)
+//@   ensures implies(result == nil, all(n, string, indom(lookup.lintsByName, n) == (old(indom(lookup.lintsByName, n)) || n == name)))
+//@   ensures implies(result == nil, all(n, string, implies(n != name, lookup.lintsByName[n] == old(lookup.lintsByName[n]))))
+
+//@ func (*ocspResponseLinterLookupImpl).register [C08 C12]
+//@   requires wfocspLookup(lookup) && lint != nil && allocated(lint) && lint.Lint != nil && lint.Name == name
+//@   nopanic
+//@   assigns \fresh, lookup.lints, lookup.lintNames, \mapof(lookup.lintsByName), \mapof(lookup.sources), \mapof(lookup.lintsBySource), \elems(lookup.lintNames)
+//@   atcall sort.Strings 1 forall(i, 0, len(lookup.lintNames), lookup.lintNames[i] == name || old(indom(lookup.lintsByName, lookup.lintNames[i])))
+//@   atcall sort.Strings 1 all(n, string, implies(old(indom(lookup.lintsByName, n)), exists(i, 0, len(lookup.lintNames), lookup.lintNames[i] == n)))
+//@   atcall sort.Strings 1 exists(i, 0, len(lookup.lintNames), lookup.lintNames[i] == name)
+//@   atcall sort.Strings 1 forall(i, 0, len(lookup.lintNames), forall(j, 0, len(lookup.lintNames), implies(i != j, lookup.lintNames[i] != lookup.lintNames[j])))
+//@   ensures (result != nil) == (name == "" || old(indom(lookup.lintsByName, name)))
+//@   ensures implies(result != nil, lookup.lints == old(lookup.lints) && lookup.lintNames == old(lookup.lintNames) &&
+//@                   all(n, string, indom(lookup.lintsByName, n) == old(indom(lookup.lintsByName, n)) &&
+//@                                  lookup.lintsByName[n] == old(lookup.lintsByName[n])))
+//@   ensures (baseof(lookup.lintNames) == old(baseof(lookup.lintNames)) || fresh(lookup.lintNames)) && (baseof(lookup.lints) == old(baseof(lookup.lints)) || fresh(lookup.lints))
+//@   ensures implies(result == nil, wfocspLookup(lookup))
+//@   ensures implies(result == nil, len(lookup.lints) == old(len(lookup.lints)) + 1 && lookup.lintsByName[name] == lint)
+//@   ensures implies(result == nil, all(n, string, indom(lookup.lintsByName, n) == (old(indom(lookup.lintsByName, n)) || n == name)))
+//@   ensures implies(result == nil, all(n, string, implies(n != name, lookup.lintsByName[n] == old(lookup.lintsByName[n]))))
+
+// ---------------------------------------------------------------------------
+// registration into a registry (C08 C12): refused exactly for a nil lint, an empty name or a name
+// already registered for that kind; otherwise the table of that kind is extended by this very lint
+
+//@ func (*registryImpl).registerCertificateLint [C08 C12]
+//@   requires r != nil && wfcertLookup(&r.certificateLints) && implies(l != nil, l.Lint != nil)
+//@   maypanic
+//@   assigns \fresh, r.certificateLints.lints, r.certificateLints.lintNames, \mapof(r.certificateLints.lintsByName), \mapof(r.certificateLints.sources), \mapof(r.certificateLints.lintsBySource), \elems(r.certificateLints.lintNames)
+//@   ensures (result != nil) == (l == nil || l.Name == "" || old(indom(r.certificateLints.lintsByName, l.Name)))
+//@   ensures implies(result != nil, r.certificateLints.lints == old(r.certificateLints.lints) && r.certificateLints.lintNames == old(r.certificateLints.lintNames) &&
+//@                   all(n, string, indom(r.certificateLints.lintsByName, n) == old(indom(r.certificateLints.lintsByName, n)) &&
+//@                                  r.certificateLints.lintsByName[n] == old(r.certificateLints.lintsByName[n])))
+//@   ensures (baseof(r.certificateLints.lintNames) == old(baseof(r.certificateLints.lintNames)) || fresh(r.certificateLints.lintNames)) && (baseof(r.certificateLints.lints) == old(baseof(r.certificateLints.lints)) || fresh(r.certificateLints.lints))
+//@   ensures implies(result == nil, wfcertLookup(&r.certificateLints))
+//@   ensures implies(result == nil, len(r.certificateLints.lints) == old(len(r.certificateLints.lints)) + 1 && r.certificateLints.lintsByName[l.Name] == l)
+//@   ensures implies(result == nil, all(n, string, indom(r.certificateLints.lintsByName, n) == (old(indom(r.certificateLints.lintsByName, n)) || n == l.Name)))
+//@   ensures implies(result == nil, all(n, string, implies(n != l.Name, r.certificateLints.lintsByName[n] == old(r.certificateLints.lintsByName[n]))))
+
+//@ func (*registryImpl).registerRevocationListLint [C08 C12]
+//@   requires r != nil && wfcrlLookup(&r.revocationListLints) && implies(l != nil, l.Lint != nil)
+//@   maypanic
+//@   assigns \fresh, r.revocationListLints.lints, r.revocationListLints.lintNames, \mapof(r.revocationListLints.lintsByName), \mapof(r.revocationListLints.sources), \mapof(r.revocationListLints.lintsBySource), \elems(r.revocationListLints.lintNames)
+//@   ensures (result != nil) == (l == nil || l.Name == "" || old(indom(r.revocationListLints.lintsByName, l.Name)))
+//@   ensures implies(result != nil, r.revocationListLints.lints == old(r.revocationListLints.lints) && r.revocationListLints.lintNames == old(r.revocationListLints.lintNames) &&
+//@                   all(n, string, indom(r.revocationListLints.lintsByName, n) == old(indom(r.revocationListLints.lintsByName, n)) &&
+//@                                  r.revocationListLints.lintsByName[n] == old(r.revocationListLints.lintsByName[n])))
+//@   ensures (baseof(r.revocationListLints.lintNames) == old(baseof(r.revocationListLints.lintNames)) || fresh(r.revocationListLints.lintNames)) && (baseof(r.revocationListLints.lints) == old(baseof(r.revocationListLints.lints)) || fresh(r.revocationListLints.lints))
+//@   ensures implies(result == nil, wfcrlLookup(&r.revocationListLints))
+//@   ensures implies(result == nil, len(r.revocationListLints.lints) == old(len(r.revocationListLints.lints)) + 1 && r.revocationListLints.lintsByName[l.Name] == l)
+//@   ensures implies(result == nil, all(n, string, indom(r.revocationListLints.lintsByName, n) == (old(indom(r.revocationListLints.lintsByName, n)) || n == l.Name)))
+//@   ensures implies(result == nil, all(n, string, implies(n != l.Name, r.revocationListLints.lintsByName[n] == old(r.revocationListLints.lintsByName[n]))))
+
+//@ func (*registryImpl).registerOcspResponseLint [C08 C12]
+//@   requires r != nil && wfocspLookup(&r.ocspResponseLints) && implies(l != nil, l.Lint != nil)
+//@   maypanic
+//@   assigns \fresh, r.ocspResponseLints.lints, r.ocspResponseLints.lintNames, \mapof(r.ocspResponseLints.lintsByName), \mapof(r.ocspResponseLints.sources), \mapof(r.ocspResponseLints.lintsBySource), \elems(r.ocspResponseLints.lintNames)
+//@   ensures (result != nil) == (l == nil || l.Name == "" || old(indom(r.ocspResponseLints.lintsByName, l.Name)))
+//@   ensures implies(result != nil, r.ocspResponseLints.lints == old(r.ocspResponseLints.lints) && r.ocspResponseLints.lintNames == old(r.ocspResponseLints.lintNames) &&
+//@                   all(n, string, indom(r.ocspResponseLints.lintsByName, n) == old(indom(r.ocspResponseLints.lintsByName, n)) &&
+//@                                  r.ocspResponseLints.lintsByName[n] == old(r.ocspResponseLints.lintsByName[n])))
+//@   ensures (baseof(r.ocspResponseLints.lintNames) == old(baseof(r.ocspResponseLints.lintNames)) || fresh(r.ocspResponseLints.lintNames)) && (baseof(r.ocspResponseLints.lints) == old(baseof(r.ocspResponseLints.lints)) || fresh(r.ocspResponseLints.lints))
+//@   ensures implies(result == nil, wfocspLookup(&r.ocspResponseLints))
+//@   ensures implies(result == nil, len(r.ocspResponseLints.lints) == old(len(r.ocspResponseLints.lints)) + 1 && r.ocspResponseLints.lintsByName[l.Name] == l)
+//@   ensures implies(result == nil, all(n, string, indom(r.ocspResponseLints.lintsByName, n) == (old(indom(r.ocspResponseLints.lintsByName, n)) || n == l.Name)))
+//@   ensures implies(result == nil, all(n, string, implies(n != l.Name, r.ocspResponseLints.lintsByName[n] == old(r.ocspResponseLints.lintsByName[n]))))
+
+//@ func NewRegistry [C08]
+//@   nopanic
+//@   assigns \fresh
+//@   ensures result != nil && fresh(result) && cfgOK(result.configuration)
+//@   ensures wfcertLookup(&result.certificateLints) && wfcrlLookup(&result.revocationListLints) && wfocspLookup(&result.ocspResponseLints)
+//@   ensures len(result.certificateLints.lints) == 0 && len(result.revocationListLints.lints) == 0 && len(result.ocspResponseLints.lints) == 0
+//@   ensures all(n, string, !indom(result.certificateLints.lintsByName, n) && !indom(result.revocationListLints.lintsByName, n) && !indom(result.ocspResponseLints.lintsByName, n))
+//@   ensures freshRep(result)
+
+// ---------------------------------------------------------------------------
+// Filter (C08): written from the property. selected(o, src, n): a lint named n from source src
+// passes the five options in their order of precedence.
+
+//@ spec srcIn(l SourceList, s LintSource) bool = exists(j, 0, len(l), l[j] == s)
+//@ spec nameIn(l []string, n string) bool = exists(j, 0, len(l), trim(l[j]) == n)
+//@ spec selected(o FilterOptions, src LintSource, n string) bool =
+//@      !srcIn(o.ExcludeSources, src) && (len(o.IncludeSources) == 0 || srcIn(o.IncludeSources, src)) &&
+//@      (o.NameFilter == nil || matches(o.NameFilter, n)) &&
+//@      !nameIn(o.ExcludeNames, n) && (len(o.IncludeNames) == 0 || nameIn(o.IncludeNames, n))
+//@ spec allKnown(r *registryImpl, l []string) bool = forall(j, 0, len(l), known(r, trim(l[j])))
+
+//@ trace func (*registryImpl).Names as AllNames
+
+// sel<Kind>0(r, o, n): when Filter was called, r had a <kind> lint named n and it passes the options o.
+// sub<Kind> / sup<Kind>(F, r, o, L, k): once the first k names of L have been processed, the filtered
+// registry F holds no <kind> lint but selected ones among them, as the very same objects (sub), and
+// holds every selected one among them (sup).
+//@ spec selCert0(r *registryImpl, o FilterOptions, n string) bool =
+//@      old(indom(r.certificateLints.lintsByName, n) && selected(o, r.certificateLints.lintsByName[n].Source, n))
+//@ spec subCert(F *registryImpl, r *registryImpl, o FilterOptions, L []string, k int) bool =
+//@      all(n, string, implies(indom(F.certificateLints.lintsByName, n), selCert0(r, o, n) && exists(j, 0, k, L[j] == n) &&
+//@                            F.certificateLints.lintsByName[n] == old(r.certificateLints.lintsByName[n])))
+//@ spec supCert(F *registryImpl, r *registryImpl, o FilterOptions, L []string, k int) bool =
+//@      forall(j, 0, k, implies(selCert0(r, o, L[j]), indom(F.certificateLints.lintsByName, L[j])))
+//@ spec selOcsp0(r *registryImpl, o FilterOptions, n string) bool =
+//@      old(indom(r.ocspResponseLints.lintsByName, n) && selected(o, r.ocspResponseLints.lintsByName[n].Source, n))
+//@ spec subOcsp(F *registryImpl, r *registryImpl, o FilterOptions, L []string, k int) bool =
+//@      all(n, string, implies(indom(F.ocspResponseLints.lintsByName, n), selOcsp0(r, o, n) && exists(j, 0, k, L[j] == n) &&
+//@                            F.ocspResponseLints.lintsByName[n] == old(r.ocspResponseLints.lintsByName[n])))
+//@ spec supOcsp(F *registryImpl, r *registryImpl, o FilterOptions, L []string, k int) bool =
+//@      forall(j, 0, k, implies(selOcsp0(r, o, L[j]), indom(F.ocspResponseLints.lintsByName, L[j])))
+//@ spec selCrl0(r *registryImpl, o FilterOptions, n string) bool =
+//@      old(indom(r.revocationListLints.lintsByName, n) && selected(o, r.revocationListLints.lintsByName[n].Source, n))
+//@ spec subCrl(F *registryImpl, r *registryImpl, o FilterOptions, L []string, k int) bool =
+//@      all(n, string, implies(indom(F.revocationListLints.lintsByName, n), selCrl0(r, o, n) && exists(j, 0, k, L[j] == n) &&
+//@                            F.revocationListLints.lintsByName[n] == old(r.revocationListLints.lintsByName[n])))
+//@ spec supCrl(F *registryImpl, r *registryImpl, o FilterOptions, L []string, k int) bool =
+//@      forall(j, 0, k, implies(selCrl0(r, o, L[j]), indom(F.revocationListLints.lintsByName, L[j])))
+
+// the whole representation of a registry built during the call is new memory
+//@ spec freshRep(F *registryImpl) bool =
+//@      fresh(F.certificateLints.lintsByName) && fresh(F.certificateLints.sources) && fresh(F.certificateLints.lintsBySource) &&
+//@      fresh(F.certificateLints.lintNames) && fresh(F.certificateLints.lints) &&
+//@      fresh(F.ocspResponseLints.lintsByName) && fresh(F.ocspResponseLints.sources) && fresh(F.ocspResponseLints.lintsBySource) &&
+//@      fresh(F.ocspResponseLints.lintNames) && fresh(F.ocspResponseLints.lints) &&
+//@      fresh(F.revocationListLints.lintsByName) && fresh(F.revocationListLints.sources) && fresh(F.revocationListLints.lintsBySource) &&
+//@      fresh(F.revocationListLints.lintNames) && fresh(F.revocationListLints.lints) &&
+//@      baseof(F.certificateLints.lintNames) != baseof(F.ocspResponseLints.lintNames) &&
+//@      baseof(F.certificateLints.lintNames) != baseof(F.revocationListLints.lintNames) &&
+//@      baseof(F.ocspResponseLints.lintNames) != baseof(F.revocationListLints.lintNames)
+
+//@ func (*registryImpl).Filter [C08]
+//@   requires wfRegistry(r) && xdistinct(r) && cfgOK(r.configuration)
+//@   maypanic
+//@   assigns \fresh
+//@   loopframe
+//@   loop 1 invariant filteredRegistry != nil && fresh(filteredRegistry) && wfRegistry(filteredRegistry) && g.nAllNames == 1 && k <= len(g.retAllNames)
+//@   loop 1 invariant filteredRegistry.configuration == old(r.configuration) && freshRep(filteredRegistry)
+//@   loop 1 invariant forall(i, 0, len(g.retAllNames), inAny0(r, g.retAllNames[i]))
+//@   loop 1 invariant all(n, string, implies(inAny0(r, n), exists(i, 0, len(g.retAllNames), g.retAllNames[i] == n)))
+//@   loop 1 invariant forall(i, 0, len(g.retAllNames), forall(j, 0, len(g.retAllNames), implies(i != j, g.retAllNames[i] != g.retAllNames[j])))
+//@   loop 1 invariant (fresh(g.retAllNames) || g.retAllNames == nil) && allocated(g.retAllNames) &&
+//@                    baseof(g.retAllNames) != baseof(filteredRegistry.certificateLints.lintNames) &&
+//@                    baseof(g.retAllNames) != baseof(filteredRegistry.ocspResponseLints.lintNames) &&
+//@                    baseof(g.retAllNames) != baseof(filteredRegistry.revocationListLints.lintNames)
+//@   loop 1 invariant subCert(filteredRegistry, r, opts, g.retAllNames, k)
+//@   loop 1 invariant supCert(filteredRegistry, r, opts, g.retAllNames, k)
+//@   loop 1 invariant subOcsp(filteredRegistry, r, opts, g.retAllNames, k)
+//@   loop 1 invariant supOcsp(filteredRegistry, r, opts, g.retAllNames, k)
+//@   loop 1 invariant subCrl(filteredRegistry, r, opts, g.retAllNames, k)
+//@   loop 1 invariant supCrl(filteredRegistry, r, opts, g.retAllNames, k)
+//@   ensures implies(opts.Empty(), result1 == nil && typeIs(result0, *registryImpl) && unbox(result0, *registryImpl) == r)
+//@   ensures (result1 != nil) == old(!opts.Empty() && (!allKnown(r, opts.ExcludeNames) || !allKnown(r, opts.IncludeNames) ||
+//@                   (opts.NameFilter != nil && (len(opts.ExcludeNames) != 0 || len(opts.IncludeNames) != 0))))
+//@   ensures implies(result1 != nil, result0 == nil)
+//@   ensures implies(!opts.Empty() && result1 == nil, typeIs(result0, *registryImpl) && fresh(unbox(result0, *registryImpl)) &&
+//@                   wfRegistry(unbox(result0, *registryImpl)) && unbox(result0, *registryImpl).configuration == old(r.configuration))
+//@   ensures implies(!opts.Empty() && result1 == nil, xdistinct(unbox(result0, *registryImpl)) && freshRep(unbox(result0, *registryImpl)))
+//@   ensures implies(!opts.Empty() && result1 == nil, all(n, string, indom(unbox(result0, *registryImpl).certificateLints.lintsByName, n) == selCert0(r, opts, n)))
+//@   ensures implies(!opts.Empty() && result1 == nil, all(n, string, implies(indom(unbox(result0, *registryImpl).certificateLints.lintsByName, n),
+//@                   unbox(result0, *registryImpl).certificateLints.lintsByName[n] == old(r.certificateLints.lintsByName[n]))))
+//@   ensures implies(!opts.Empty() && result1 == nil, all(n, string, indom(unbox(result0, *registryImpl).ocspResponseLints.lintsByName, n) == selOcsp0(r, opts, n)))
+//@   ensures implies(!opts.Empty() && result1 == nil, all(n, string, implies(indom(unbox(result0, *registryImpl).ocspResponseLints.lintsByName, n),
+//@                   unbox(result0, *registryImpl).ocspResponseLints.lintsByName[n] == old(r.ocspResponseLints.lintsByName[n]))))
+//@   ensures implies(!opts.Empty() && result1 == nil, all(n, string, indom(unbox(result0, *registryImpl).revocationListLints.lintsByName, n) == selCrl0(r, opts, n)))
+//@   ensures implies(!opts.Empty() && result1 == nil, all(n, string, implies(indom(unbox(result0, *registryImpl).revocationListLints.lintsByName, n),
+//@                   unbox(result0, *registryImpl).revocationListLints.lintsByName[n] == old(r.revocationListLints.lintsByName[n]))))
+
+// ---------------------------------------------------------------------------
+// registration into the global registry (C08 C12): a registration that returns has added exactly
+// this lint under a name that was new for its kind, and the registry is still well formed; every
+// refused registration panics (it never returns).
+
+//@ func RegisterCertificateLint [C08 C12]
+//@   requires wfRegistry(globalRegistry) && implies(l != nil, l.Lint != nil)
+//@   maypanic
+//@   assigns \fresh, globalRegistry.certificateLints.lints, globalRegistry.certificateLints.lintNames, \mapof(globalRegistry.certificateLints.lintsByName), \mapof(globalRegistry.certificateLints.sources), \mapof(globalRegistry.certificateLints.lintsBySource), \elems(globalRegistry.certificateLints.lintNames)
+//@   ensures wfRegistry(globalRegistry)
+//@   ensures l != nil && l.Name != "" && !old(indom(globalRegistry.certificateLints.lintsByName, l.Name)) && globalRegistry.certificateLints.lintsByName[l.Name] == l
+//@   ensures all(n, string, indom(globalRegistry.certificateLints.lintsByName, n) == (old(indom(globalRegistry.certificateLints.lintsByName, n)) || n == l.Name))
+
+//@ func RegisterRevocationListLint [C08 C12]
+//@   requires wfRegistry(globalRegistry) && implies(l != nil, l.Lint != nil)
+//@   maypanic
+//@   assigns \fresh, globalRegistry.revocationListLints.lints, globalRegistry.revocationListLints.lintNames, \mapof(globalRegistry.revocationListLints.lintsByName), \mapof(globalRegistry.revocationListLints.sources), \mapof(globalRegistry.revocationListLints.lintsBySource), \elems(globalRegistry.revocationListLints.lintNames)
+//@   ensures wfRegistry(globalRegistry)
+//@   ensures l != nil && l.Name != "" && !old(indom(globalRegistry.revocationListLints.lintsByName, l.Name)) && globalRegistry.revocationListLints.lintsByName[l.Name] == l
+//@   ensures all(n, string, indom(globalRegistry.revocationListLints.lintsByName, n) == (old(indom(globalRegistry.revocationListLints.lintsByName, n)) || n == l.Name))
+
+//@ func RegisterOcspResponseLint [C08 C12]
+//@   requires wfRegistry(globalRegistry) && implies(l != nil, l.Lint != nil)
+//@   maypanic
+//@   assigns \fresh, globalRegistry.ocspResponseLints.lints, globalRegistry.ocspResponseLints.lintNames, \mapof(globalRegistry.ocspResponseLints.lintsByName), \mapof(globalRegistry.ocspResponseLints.sources), \mapof(globalRegistry.ocspResponseLints.lintsBySource), \elems(globalRegistry.ocspResponseLints.lintNames)
+//@   ensures wfRegistry(globalRegistry)
+//@   ensures l != nil && l.Name != "" && !old(indom(globalRegistry.ocspResponseLints.lintsByName, l.Name)) && globalRegistry.ocspResponseLints.lintsByName[l.Name] == l
+//@   ensures all(n, string, indom(globalRegistry.ocspResponseLints.lintsByName, n) == (old(indom(globalRegistry.ocspResponseLints.lintsByName, n)) || n == l.Name))
